@@ -41,7 +41,7 @@ WALL_CAP = {"quick": 900, "thorough": 7200}
 VSTR = h5py.string_dtype()
 LIBVER = (1, 2, 1)
 
-PVALS = {"int": [3, -4, 5], "float": [1.5, -0.25, 8.0], "text": ["a", "ü", "long text"], "bool": [True, False, True]}
+PVALS = {"int": [2 ** 63 - 1, -2 ** 63, 5], "float": [1.5, -0.25, 1.7976931348623157e308], "text": ["a", "ü", "long text"], "bool": [True, False, True]}
 FORESTS = [[("s", [])], [("s", [("s", [])])], [("s", []), ("Z", [])], [("s", [("a", []), ("s", [])])]]
 EXTRAS = ["none", "uncertainty-uniform", "uncertainty-per-value", "uncertainty-tiny", "reference", "file-encoder-checksum", "mixed"]
 TINY = [2e-11, 5e-11, 1e-11, 3e-11]
@@ -120,6 +120,10 @@ def BOUNDS(tier):
 def cases(tier):
     for cfg in configs(tier):
         yield {"k": "file", "cfg": cfg, "pairs": tier == "thorough"}
+    # old files that are NOT small: 132 properties (44 per section, three sections), large integer values
+    for ver in ([1, 0, 0], [1, 1, 0]) if tier == "thorough" else ([1, 0, 0],):
+        for extra in ("mixed", "none"):
+            yield {"k": "file", "cfg": {"ver": ver, "id": False, "forest": 3, "nprops": 44, "extra": extra, "nalias": 1, "many": True}, "pairs": False}
     yield {"k": "current"}
 
 
@@ -386,7 +390,10 @@ def run_file(case, r):
             return
         # every interruption point
         plans = [(k,) for k in range(1, n + 1)]
-        if case["pairs"]:
+        if cfg.get("many"):
+            # files with well over a hundred properties: interruption points around every tenth step and around 100 / 128
+            plans = [(k,) for k in range(1, n + 1) if k % 10 == 0 or k in (1, 2, 99, 100, 101, 102, 127, 128, 129, n - 1, n)]
+        elif case["pairs"]:
             plans += [(k, j) for k in range(1, n + 1) for j in range(1, n - k + 3)]
         for plan in plans:
             shutil.copyfile(base, work)
